@@ -20,6 +20,7 @@ type TxnSpec struct {
 	Table  int    `json:"table"`
 	Key    int    `json:"key"`
 	Commit bool   `json:"commit"`
+	Form   int    `json:"form,omitempty"` // forupd: 1 = the table is the joined (second) table of the FOR UPDATE query
 }
 
 type wtChoice struct {
@@ -67,7 +68,13 @@ func txnProgram(j int, tx TxnSpec, uniq int) []string {
 		s = append(s, fmt.Sprintf("UPDATE %s SET n = n + 1 WHERE id = %d;", t, tx.Key))
 		s = append(s, sel(2, "")...)
 	case "forupd":
-		s = append(s, sel(1, " FOR UPDATE")...)
+		if tx.Form == 1 {
+			// every table of the FROM clause is held, not only the first: the counter
+			// table is reached through a join with the one-row table one.csv
+			s = append(s, fmt.Sprintf("ECHO '@Q %d.%d';", j, 1), fmt.Sprintf("SELECT x.id, x.n FROM one y JOIN %s x ON y.k = 1 FOR UPDATE;", t))
+		} else {
+			s = append(s, sel(1, " FOR UPDATE")...)
+		}
 		s = append(s, fmt.Sprintf("UPDATE %s SET n = n + 1 WHERE id = %d;", t, tx.Key))
 		s = append(s, sel(2, "")...)
 	case "ins":
@@ -175,6 +182,7 @@ func genCounterScenario(prop string, seed uint64, tier string, maxProcs int) (*S
 		meta.Rows = append(meta.Rows, rows)
 		sc.Files = append(sc.Files, FileSpec{Name: tableName(i) + ".csv", Content: counterTable(rows)})
 	}
+	sc.Files = append(sc.Files, FileSpec{Name: "one.csv", Content: "k\n1\n"}) // first table of the join form of FOR UPDATE
 	nproc := r.Range(2, maxProcs)
 	kinds := []string{"inc", "inc", "selinc", "ins", "read", "read", "forupd"}
 	for p := 0; p < nproc; p++ {
@@ -184,6 +192,9 @@ func genCounterScenario(prop string, seed uint64, tier string, maxProcs int) (*S
 		for j := 0; j < ntx; j++ {
 			tb := r.Intn(ntab)
 			tx := TxnSpec{Kind: kinds[r.Intn(len(kinds))], Table: tb, Key: r.Range(1, meta.Rows[tb]), Commit: r.Bool(0.85)}
+			if tx.Kind == "forupd" && r.Bool(0.4) {
+				tx.Form = 1
+			}
 			txs = append(txs, tx)
 			stmts = append(stmts, txnProgram(j, tx, uniqKey(p, j))...)
 		}
